@@ -350,10 +350,10 @@ pub fn run(args: &Args) -> Report {
     rep.bounds.insert("histories_per_end".into(), serde_json::json!(hs.len()));
     rep.bounds.insert("alphabet".into(), serde_json::json!(op_str(&alphabet())));
     let plan = Plan {
-        ks: if thorough { vec![0, 1] } else { vec![0, 1] },
+        ks: if thorough { vec![0, 1, 2] } else { vec![0, 1, 2] },
         env: 0,
         fault: 0,
-        total_wall: Duration::from_secs(if thorough { 1500 } else { 35 }),
+        total_wall: Duration::from_secs(if thorough { 1500 } else { 30 }),
         max_execs_per_case: 100_000,
         required_witnesses: W_EOF_SEEN | W_BROKEN_PIPE | W_HALF_CLOSE_DATA | W_RESET,
         witness_names: &[("eof_observed", W_EOF_SEEN), ("broken_pipe_observed", W_BROKEN_PIPE), ("data_flowed_after_half_close", W_HALF_CLOSE_DATA), ("reset_on_wire", W_RESET)],
